@@ -430,6 +430,7 @@ impl Chain {
         let env = self.env.clone();
         let res = symcore::catch(|| staking::contract::reply(self.deps.as_mut(), env, r));
         match res {
+            Err(p) if p.contains("SYMX") => panic!("{p}"),
             Err(p) => Err(format!("PANIC in reply: {p}")),
             Ok(Err(e)) => Err(format!("reply error: {e}")),
             Ok(Ok(resp)) => {
@@ -468,6 +469,12 @@ impl Chain {
         let info = MessageInfo { sender: Addr::unchecked(sender), funds: funds.to_vec() };
         let env = self.env.clone();
         let res = symcore::catch(|| call(self.deps.as_mut(), env, info));
+        if let Err(p) = &res {
+            if p.contains("SYMX") {
+                // not a panic of the code under test: the engine could not model an operation
+                panic!("{p}");
+            }
+        }
         let out = match res {
             Err(p) => {
                 self.rollback(&snap);
@@ -561,6 +568,11 @@ impl Chain {
         let snap = dump(&self.deps.storage);
         let env = self.env.clone();
         let res = symcore::catch(|| staking::contract::sudo(self.deps.as_mut(), env, msg));
+        if let Err(p) = &res {
+            if p.contains("SYMX") {
+                panic!("{p}");
+            }
+        }
         let out = match res {
             Err(p) => {
                 restore(&mut self.deps.storage, &snap);
